@@ -7,7 +7,8 @@ CLAIMED = {
     "C01": dict(
         text="Proof (Lean 4) over the hand-written executable model of the context layer + lane scheduler "
              "(Impl/HashMB.lean): streaming law, hash_pad arithmetic, settle-neutrality of the resubmit loop for any "
-             "lane occupancy/interleaving, lane bookkeeping invariant. Tie: per-call correspondence of all 28 "
+             "lane occupancy/interleaving, lane bookkeeping invariant; the synchronous base family (own update and padding "
+             "code) is proved separately (C01_base: baseUpdate = absorb, its padding = hash_pad's blocks). Tie: per-call correspondence of all 28 "
              "(algorithm,family) managers with the compiled model on seeded histories, plus OpenSSL digest monitor. "
              "SIMD kernels are modelled (compress^n), not verified.",
         note="Trusted: Lean kernel; axioms propext/Classical.choice/Quot.sound; the correspondence harness "
